@@ -26,7 +26,7 @@ ROLE_CFGS = [
     ("client", FP, ["none"], ["certC"], ["certS", "certM", "stolen", "chain"]),
     ("server", ["match"], FP, ["certC", "certM", "stolen", "chain"], ["certS"]),
 ]
-FULL_CFGS = [("all", FP, FP, ["certC", "certM", "stolen", "chain"], ["certS", "certM", "stolen", "chain"])]
+FULL_CFGS = [("all", FP, FP, ["certC", "certM", "stolen"], ["certS", "certM", "stolen"])]   # (chain: role families)
 
 
 def _cfg(name):
